@@ -214,6 +214,20 @@ func matchSpec(fn *ssa.Function, in ssa.Instruction, spec string, selSend map[*s
 			}
 		}
 		return false
+	case "mapupdate":
+		// a store into the named map (local, parameter or field)
+		mu, ok := in.(*ssa.MapUpdate)
+		return ok && valueName(fn, mu.Map) == arg
+	case "maplookup":
+		// a lookup in the named map
+		lk, ok := in.(*ssa.Lookup)
+		if !ok {
+			return false
+		}
+		if _, isMap := lk.X.Type().Underlying().(*types.Map); !isMap {
+			return false
+		}
+		return valueName(fn, lk.X) == arg
 	case "store-var":
 		// a store to the named local or captured variable
 		st, ok := in.(*ssa.Store)
